@@ -56,6 +56,8 @@ def semtok_oracle(text, lexline, result, legend, adm):
     if parsed is None:
         return [f'tokenize_program failed: {lexline[:100]}']
     toks, errs = parsed
+    if lexcheck.has_no_token_text(text) and result is not None:
+        return ['the document holds characters that belong to no token (outside comments and strings) but the result is not null']
     if errs:
         return [] if result is None else [f'document has {len(errs)} lexical error(s) but the result is not null']
     if result is None:
